@@ -11,6 +11,7 @@ code as it was before the two repairs violates the property (they are the replay
 import TxdbusModel.Obj.Tree
 import TxdbusModel.Proofs.Obj.TreePath
 import TxdbusModel.Proofs.Obj.Tree
+import TxdbusModel.Gen.Validators
 
 namespace Txdbus.C16
 open Txdbus.Obj Txdbus.Obj.Tree Txdbus.Obj.TreeSpec Txdbus.Obj.TreeLemmas Txdbus.Obj.TreePath
@@ -67,7 +68,7 @@ theorem introspect_fails_iff_nothing_there (h : List Op) (wf : WfHistory h) (p :
         exportedAfter h (render p) = none ∧ below p (exportedPaths h) = []) ∧
     (¬ (exportedAfter h (render p) = none ∧ below p (exportedPaths h) = []) →
         handle (run h) (render p) .introspect =
-          .introspection ((exportedAfter h (render p)).map (·.ifaces)) (introspectChildren (render p) (run h))) := by
+          .introspection ((exportedAfter h (render p)).map (·.ifaceNames)) (introspectChildren (render p) (run h))) := by
   rw [handle_introspect, lookup_run]
   simp only [children_nil_iff h wf p hp]
   constructor
@@ -81,69 +82,134 @@ theorem introspect_fails_iff_nothing_there (h : List Op) (wf : WfHistory h) (p :
 
 /-! ### 2. GetManagedObjects -/
 
-/-- The interface names reported for an object (dict keys) are exactly its interfaces, each once. -/
-theorem interface_names_complete (l : List Str) : (dictKeys l).Nodup ∧ ∀ i, i ∈ dictKeys l ↔ i ∈ l :=
-  ⟨nodup_dictKeys l, mem_dictKeys l⟩
+/-- The interface names reported for an object (keys of the dict `a{sa{sv}}`) are exactly its
+interfaces, each once. -/
+theorem interface_names_complete (o : Obj) :
+    (keys (dictOf o.ifaces)).Nodup ∧ ∀ n, n ∈ keys (dictOf o.ifaces) ↔ n ∈ o.ifaceNames :=
+  ⟨(nodup_keys_foldl_setItem o.ifaces [] (by simp [keys])), fun n => keys_dictOf o.ifaces n⟩
 
-/-- GetManagedObjects on an exported valid path (root included) reports exactly the exported
-objects strictly beneath it - one entry per path, each with all its interface names
-(`interface_names_complete`) and its readable properties (the payload of the object visible
-there). -/
-theorem managed_eq_spec (h : List Op) (wf : WfHistory h) (p : Path) (hp : ValidPath p)
+/-- For an object whose `getAllProperties(name)` depends on the name only, the reported dict holds
+exactly the pairs (interface name, result of `getAllProperties(name)`) of its interfaces. -/
+theorem interface_dict_complete (o : Obj) (hc : o.Consistent) :
+    ∀ n t, (n, t) ∈ dictOf o.ifaces ↔ (n, t) ∈ o.ifaces :=
+  (dictOf_complete o.ifaces hc).2
+
+/-- After any history every object in the table is one whose properties can be sent (an object
+that cannot be announced never gets in - repair C16-03), so GetManagedObjects never takes its
+`Error.Failed` branch because of a property value that was unmarshallable at export time. -/
+theorem table_objects_sendable (h : List Op) (k : Str) (o : Obj) (hk : lookup (run h) k = some o) :
+    o.sendable = true := by
+  rw [lookup_run] at hk; exact exportedAfter_sendable hk
+
+/-
+FULL STATEMENT (property text): "GetManagedObjects on an exported path reports exactly the exported
+objects strictly beneath it, each with all its interfaces and readable properties."
+PROVED below: exactly the objects strictly beneath (one entry per path, keys distinct, root included),
+each with all its interface names (`interface_names_complete`) and, per interface, the token of
+`getAllProperties(interface)` of the object visible there (`interface_dict_complete`).
+MISSING (hence `_partial`): that this token IS "the readable properties of the interface, and only
+those".  That is property C17 (`Txdbus.C17.getall_exact`, model `Obj.Props.getAllProperties`); the two
+models are not linked in Lean - objects are abstract here - the link is made by the harness oracle
+(`managed-objects-content`: the reply is compared with the values the harness gave the object,
+write-only properties excluded).
+-/
+/-- GetManagedObjects on an exported valid path (root included) is answered with a method return
+that lists exactly the exported objects strictly beneath it - one entry per path - each with the
+dict built from its interfaces. -/
+theorem managed_eq_spec_partial (h : List Op) (wf : WfHistory h) (p : Path) (hp : ValidPath p)
     (o0 : Obj) (hexp : exportedAfter h (render p) = some o0) :
     ∃ ents, handle (run h) (render p) .getManagedObjects = .managed ents ∧
       (ents.map (fun x => x.1)).Nodup ∧
-      ∀ k ifs pl, (k, ifs, pl) ∈ ents ↔
+      ∀ k d, (k, d) ∈ ents ↔
         ∃ q o, q ∈ below p (exportedPaths h) ∧ k = render q ∧ exportedAfter h k = some o ∧
-          ifs = dictKeys o.ifaces ∧ pl = o.payload := by
+          d = dictOf o.ifaces := by
   have hpath : o0.path = render p := (exportedAfter_some hexp).2
-  refine ⟨managed (render p) (run h), ?_, nodup_managed_keys _ _ (nodup_keys_run h), fun k ifs pl => ?_⟩
+  refine ⟨managed (render p) (run h), ?_, nodup_managed_keys _ _ (nodup_keys_run h), fun k d => ?_⟩
   · rw [handle_managed, lookup_run, hexp]
-    simp only [hpath]
+    simp only [hpath, managedSendable_of_all _ _ (table_objects_sendable h), if_true]
   · rw [mem_managed]
     constructor
-    · rintro ⟨⟨hsw, hne⟩, o, ho, rfl, rfl⟩
+    · rintro ⟨⟨hsw, hne⟩, o, ho, rfl⟩
       have hk : k ∈ keys (run h) := by rw [mem_keys_iff, ho]; rfl
       obtain ⟨q, hq, rfl, hqE⟩ := key_valid h wf k hk
       obtain ⟨e, rest, rfl⟩ := (startsWith_dirPrefix_ne p q hp hq).mp ⟨hsw, hne⟩
       rw [lookup_run] at ho
-      exact ⟨_, o, (mem_below p _ _).mpr ⟨hqE, e, rest, rfl⟩, rfl, ho, rfl, rfl⟩
-    · rintro ⟨q, o, hq, rfl, ho, rfl, rfl⟩
+      exact ⟨_, o, (mem_below p _ _).mpr ⟨hqE, e, rest, rfl⟩, rfl, ho, rfl⟩
+    · rintro ⟨q, o, hq, rfl, ho, rfl⟩
       obtain ⟨hqE, hbelow⟩ := (mem_below p q _).mp hq
       have hqv := ((mem_exportedPaths h q).mp hqE).1
-      refine ⟨(startsWith_dirPrefix_ne p q hp hqv).mpr hbelow, o, ?_, rfl, rfl⟩
+      refine ⟨(startsWith_dirPrefix_ne p q hp hqv).mpr hbelow, o, ?_, rfl⟩
       rw [lookup_run]; exact ho
 
 /-! ### 3. UnknownObject -/
 
-/-- A call that is not one of the built-ins (Ping, Introspect, GetManagedObjects), to any path
+theorem isPair_iff (pr : String × String) (iface : Option Str) (member : Str) :
+    isPair pr iface member = true ↔ (iface = some pr.1.toList ∧ member = pr.2.toList) := by
+  simp [isPair]
+
+/-- Which calls the handler answers itself: exactly the three (interface, member) pairs of the
+table generated from objects.py. -/
+theorem classify_ordinary_iff (iface : Option Str) (member : Str) :
+    classify iface member = .ordinary ↔
+      ∀ pr ∈ [Gen.Dispatch.peerPair, Gen.Dispatch.introspectPair, Gen.Dispatch.managedPair],
+        ¬ (iface = some pr.1.toList ∧ member = pr.2.toList) := by
+  unfold classify
+  generalize Gen.Dispatch.peerPair = a
+  generalize Gen.Dispatch.introspectPair = b
+  generalize Gen.Dispatch.managedPair = c
+  simp only [List.mem_cons, List.not_mem_nil, or_false, forall_eq_or_imp, forall_eq, ← isPair_iff]
+  cases isPair a iface member <;> cases isPair b iface member <;> cases isPair c iface member <;> simp
+
+/-- A call of any member on any interface that is not one of the three built-in pairs, to any path
 text `s`: it is answered UnknownObject exactly when `s` is not currently exported, and otherwise
-reaches the object exported there most recently.  GetManagedObjects on a path that is not
-exported is answered UnknownObject as well. -/
-theorem unknown_object_iff_not_exported (h : List Op) (s : Str) :
-    (handle (run h) s .ordinary = .unknownObject s ↔ exportedAfter h s = none) ∧
-    (∀ o, exportedAfter h s = some o → handle (run h) s .ordinary = .dispatch o) ∧
+reaches the object exported there most recently.  GetManagedObjects on a path that is not exported
+is answered UnknownObject as well.
+STATED DEVIATION from the literal property text ("a call to a path not currently exported is
+answered UnknownObject"): the built-in calls are excluded - `ping_answered_everywhere`, and
+Introspect succeeds on non-exported intermediate paths (`introspect_fails_iff_nothing_there`). -/
+theorem unknown_object_iff_not_exported (h : List Op) (s : Str) (iface : Option Str) (member : Str)
+    (hb : ∀ pr ∈ [Gen.Dispatch.peerPair, Gen.Dispatch.introspectPair, Gen.Dispatch.managedPair],
+        ¬ (iface = some pr.1.toList ∧ member = pr.2.toList)) :
+    (handleMsg (run h) s iface member = .unknownObject s ↔ exportedAfter h s = none) ∧
+    (∀ o, exportedAfter h s = some o → handleMsg (run h) s iface member = .dispatch o) ∧
     (handle (run h) s .getManagedObjects = .unknownObject s ↔ exportedAfter h s = none) := by
-  rw [handle_ordinary, handle_managed, lookup_run]
+  rw [handleMsg, (classify_ordinary_iff iface member).mpr hb, handle_ordinary, handle_managed, lookup_run]
   cases exportedAfter h s with
   | none => simp
-  | some o => simp
+  | some o => simp; split <;> simp
+
+/-- Peer.Ping is answered with an empty method return at every path, exported or not. -/
+theorem ping_answered_everywhere (e : Exports) (s : Str) :
+    handleMsg e s (some Gen.Dispatch.peerPair.1.toList) Gen.Dispatch.peerPair.2.toList = .pong := by
+  have hp : isPair Gen.Dispatch.peerPair (some Gen.Dispatch.peerPair.1.toList) Gen.Dispatch.peerPair.2.toList = true :=
+    (isPair_iff _ _ _).mpr ⟨rfl, rfl⟩
+  unfold handleMsg classify
+  rw [if_pos hp]
+  simp [handle]
 
 /-! ### 4. signals -/
 
-/-- After any history: an export sends exactly one message, InterfacesAdded naming the object's
-path (header and first argument) and its interface names; an unexport of an exported path sends
-exactly one message, InterfacesRemoved naming that path and the interface names of the object
-that was visible there; an unexport of a path that is not exported raises KeyError, sends nothing
-and leaves the table unchanged. -/
+/-- After any history: an export of an object whose properties can be sent sends exactly one
+message, InterfacesAdded naming the object's path (header and first argument) and the dict of its
+interfaces, and the object is in the table afterwards; an export of an object whose properties
+cannot be sent raises, sends nothing and changes nothing; an unexport of an exported path sends
+exactly one message, InterfacesRemoved naming that path and the interface names of the object that
+was visible there; an unexport of a path that is not exported raises, sends nothing and leaves the
+table unchanged.
+(The export part restates `Tree.step`: there is no independent notion of "the announcement an export
+implies" beyond path + interfaces; its value is the correspondence stream.  The content proved here
+is that the unexport signal names `s` and the interfaces of the object the history implies at `s`,
+and that failing calls are silent and without effect.) -/
 theorem export_signals (h : List Op) :
-    (∀ o : Obj, (step (run h) (.export o)).sent = [.interfacesAdded o.path o.path (dictKeys o.ifaces) o.payload] ∧
-        (step (run h) (.export o)).keyError = false) ∧
+    (∀ o : Obj, o.sendable = true →
+        step (run h) (.export o) =
+          ⟨setItem (run h) o.path o, [.interfacesAdded o.path o.path (dictOf o.ifaces)], false⟩) ∧
+    (∀ o : Obj, o.sendable = false → step (run h) (.export o) = ⟨run h, [], true⟩) ∧
     (∀ s o, exportedAfter h s = some o →
-        (step (run h) (.unexport s)).sent = [.interfacesRemoved s s o.ifaces] ∧
-        (step (run h) (.unexport s)).keyError = false) ∧
+        (step (run h) (.unexport s)).sent = [.interfacesRemoved s s o.ifaceNames] ∧
+        (step (run h) (.unexport s)).raised = false) ∧
     (∀ s, exportedAfter h s = none → step (run h) (.unexport s) = ⟨run h, [], true⟩) := by
-  refine ⟨fun o => ⟨rfl, rfl⟩, fun s o ho => ?_, fun s ho => ?_⟩
+  refine ⟨fun o ho => by simp [step, ho], fun o ho => by simp [step, ho], fun s o ho => ?_, fun s ho => ?_⟩
   · have hp := (exportedAfter_some ho).2
     rw [← lookup_run] at ho
     simp [step, ho, hp]
@@ -168,9 +234,10 @@ theorem parse_render_inverse :
 
 /-! ### witnesses: the code before the repairs violates the property -/
 
-private def oRoot : Obj := { path := ['/'], ifaces := [], payload := 1 }
-private def oAB : Obj := { path := ['/', 'a', '/', 'b'], ifaces := [], payload := 1 }
-private def oABC : Obj := { path := ['/', 'a', '/', 'b', 'c'], ifaces := [], payload := 2 }
+private def oRoot : Obj := { path := ['/'], ifaces := [], sendable := true }
+private def oAB : Obj := { path := ['/', 'a', '/', 'b'], ifaces := [(['i'], 1)], sendable := true }
+private def oABC : Obj := { path := ['/', 'a', '/', 'b', 'c'], ifaces := [(['i'], 2)], sendable := true }
+private def oBad : Obj := { path := ['/', 'a'], ifaces := [(['i'], 3)], sendable := false }
 
 /-- F23: with `/` exported, the unrepaired loop lists a child named "" for `/`; the spec has none. -/
 theorem orig_introspect_root_lists_empty_child :
@@ -180,22 +247,39 @@ theorem orig_introspect_root_lists_empty_child :
 
 /-- F24: with `/a/b` and `/a/bc` exported, the unrepaired selection reports `/a/bc` beneath `/a/b`. -/
 theorem orig_managed_reports_prefix_sibling :
-    managedOrig oAB.path (run [.export oAB, .export oABC]) = [(oABC.path, [], 2)] ∧
+    managedOrig oAB.path (run [.export oAB, .export oABC]) = [(oABC.path, [(['i'], 2)])] ∧
     below [['a'], ['b']] (exportedPaths [.export oAB, .export oABC]) = [] ∧
     managed oAB.path (run [.export oAB, .export oABC]) = [] := by decide
+
+/-- Half-done export (before C16-03): exporting an object whose properties cannot be sent raises
+and sends nothing, yet the object is in the table; the calls imply nothing and the repaired code
+agrees. -/
+theorem orig_failed_export_stays_visible :
+    (stepOrig [] (.export oBad)).sent = [] ∧ (stepOrig [] (.export oBad)).raised = true ∧
+    lookup (runOrig [.export oBad]) oBad.path = some oBad ∧
+    exportedAfter [.export oBad] oBad.path = none ∧
+    lookup (run [.export oBad]) oBad.path = none := by decide
+
+/-- The element alphabet of the spec is the character class `invalid_obj_path_re` of marshal.py
+allows (generated table), minus the separator: `WfHistory` is what `DBusObject.__init__`
+(`validateObjectPath`) guarantees as far as characters go. -/
+theorem objectPath_alphabet_eq_source (c : Char) :
+    elemChar c = (inRanges Gen.Validators.objPathAllowed c.toNat && c.toNat != 47) :=
+  elemCode_eq_gen c.toNat
 
 /-! ### the hypotheses are satisfiable by non-trivial instances -/
 
 private def hist : List Op :=
-  [.export oRoot, .export oAB, .export oABC, .unexport ['/', 'z'], .export { oAB with payload := 7 },
+  [.export oRoot, .export oAB, .export oABC, .export oBad, .unexport ['/', 'z'],
+   .export { oAB with ifaces := [(['i'], 7)] },
    .unexport oABC.path]
 
 example : WfHistory hist := by
   intro o ho
   simp only [hist, List.mem_cons, Op.export.injEq, List.not_mem_nil, or_false, reduceCtorEq, false_or] at ho
-  rcases ho with rfl | rfl | rfl | rfl <;> decide
+  rcases ho with rfl | rfl | rfl | rfl | rfl <;> decide
 
-example : ValidPath [['a'], ['b']] ∧ exportedAfter hist (render [['a'], ['b']]) = some { oAB with payload := 7 } := by
+example : ValidPath [['a'], ['b']] ∧ exportedAfter hist (render [['a'], ['b']]) = some { oAB with ifaces := [(['i'], 7)] } := by
   decide
 
 example : children [] (exportedPaths hist) = [['a']] ∧ below [] (exportedPaths hist) = [[['a'], ['b']]] := by
@@ -208,7 +292,14 @@ end Txdbus.C16
 #print axioms Txdbus.C16.children_nil_iff
 #print axioms Txdbus.C16.introspect_fails_iff_nothing_there
 #print axioms Txdbus.C16.interface_names_complete
-#print axioms Txdbus.C16.managed_eq_spec
+#print axioms Txdbus.C16.interface_dict_complete
+#print axioms Txdbus.C16.table_objects_sendable
+#print axioms Txdbus.C16.managed_eq_spec_partial
+#print axioms Txdbus.C16.isPair_iff
+#print axioms Txdbus.C16.classify_ordinary_iff
+#print axioms Txdbus.C16.ping_answered_everywhere
+#print axioms Txdbus.C16.orig_failed_export_stays_visible
+#print axioms Txdbus.C16.objectPath_alphabet_eq_source
 #print axioms Txdbus.C16.unknown_object_iff_not_exported
 #print axioms Txdbus.C16.export_signals
 #print axioms Txdbus.C16.strictlyBelow_iff_text
